@@ -206,6 +206,9 @@ func c19Exec(t *testing.T, scn c19Scenario, ch *mc.Chooser) (rec c19Rec, machine
 					pl.FailAt = map[int]string{}
 				}
 				pl.FailAt[n.NumReqs()+1] = "ERR injected failure"
+			case "L0", "L1":
+				// node 0 / 1 executes what it has received, then loses its connections before any reply left
+				cl.Nodes[int(step[1]-'0')].ExecParkedThenKill()
 			case "K1":
 				// transient failure of node 1: its connections are lost together with what was in flight
 				cl.Nodes[1].DropParked()
@@ -648,7 +651,7 @@ func runC19(t *testing.T, rep *mc.Reporter) {
 	// (error replies other than redirects - steps "E0"/"E1" - are not part of the scripts: C19 quantifies
 	// over slot migrations; a pipelined batch in which one command is refused and the later ones are
 	// executed is how any Redis client behaves, and what follows from it is not a statement of C19)
-	topos := [][]string{{"O"}, {"M", "F"}, {"M", "Ka", "F"}, {"M", "Ka"}, {"M"}, {"K1", "M"}}
+	topos := [][]string{{"O"}, {"M", "F"}, {"M", "Ka", "F"}, {"M", "Ka"}, {"M"}, {"K1", "M"}, {"L1", "M"}, {"L0"}}
 	bound := 2
 	if tier == "thorough" {
 		streams = append(streams, []int{0, 1, 0, 1}, []int{0, 2, 1, 0}, []int{0, 0, 2, 0, 0})
